@@ -5,6 +5,7 @@ from sklearn.base import BaseEstimator, RegressorMixin, ClassifierMixin, clone
 from sklearn.tree import DecisionTreeRegressor, DecisionTreeClassifier
 from sklearn.linear_model import LinearRegression, LogisticRegression
 from sklearn.preprocessing import KBinsDiscretizer
+from sklearn.utils import check_random_state
 from sklearn.utils._joblib import Parallel, delayed
 
 try:
@@ -250,11 +251,12 @@ class PiecewiseEstimator(BaseEstimator):
             else len(set(self.mean_estimator_.classes_))
         )
 
-        if hasattr(self, "random_state") and self.random_state is not None:
+        if nb_classes is not None:
             # One generator per bucket, seeded before any task starts: sharing
             # a single generator makes the result depend on the order
-            # in which threads reach it.
-            rnd = numpy.random.RandomState(self.random_state)
+            # in which threads reach it. Without random_state, the seeds come
+            # from numpy's global generator (numpy.random.seed applies).
+            rnd = check_random_state(getattr(self, "random_state", None))
             seeds = rnd.randint(0, 2**31 - 1, len(estimators))
             rnds = [numpy.random.RandomState(s) for s in seeds]
         else:
